@@ -246,6 +246,8 @@ void val_create_one(Run& r, std::index_sequence<I...>)
         auto fm = ctpg::ftors::val(std::string(src));
         src.assign(src.size(), '#'); src2.assign(8, '#');
         auto rs = fs(pass<Cat, false>(args[I])...); auto rm = fm(pass<Cat, false>(args[I])...);
+        // the call yields a value of its own (a prvalue), not a reference into the functor object
+        if constexpr (!std::is_same_v<decltype(fs(pass<Cat, false>(args[I])...)), std::string> || !std::is_same_v<decltype(ctpg::ftors::val(int(v))(pass<Cat, false>(args[I])...)), int>) r.fail(Run::where("val(v)(...) does not return a value of v's type (it returns a reference or another type)", K, 0, 0, Cat));
         if constexpr (!std::is_same_v<decltype(rs), std::string> || !std::is_same_v<decltype(rm), std::string>) r.fail(Run::where("val(std::string) does not return a std::string", K, 0, 0, Cat));
         else if (rs != want || rm != want) r.fail(Run::where("val(v) does not return the value it was given (it follows later changes of the caller's object)", K, 0, 0, Cat));
         auto fl = ctpg::ftors::val(static_cast<const char*>("lit"));
